@@ -292,6 +292,35 @@ def hash_sites(fx, crates=None):
     return out
 
 
+_SUBSTRING = {"starts_with", "ends_with", "contains", "find", "rfind", "matches", "strip_prefix", "strip_suffix", "eq_ignore_ascii_case", "split_once"}
+
+
+def _inexact_predicate(fx, key, depth=0, seen=None):
+    """a unique-match search compares names exactly; a prefix / suffix / substring test in the search (the function, its closures, the
+    helpers of its crate it calls) lets several entries match, and then the first one in hash order wins"""
+    seen = seen if seen is not None else set()
+    if key in seen or key not in fx.fns:
+        return None
+    seen.add(key)
+    bodies = [key] + [k for k, g in fx.fns.items() if (g.get("parent") or "").startswith(key) and "{promoted" not in k]
+    for b in bodies:
+        f = fx.fns[b]
+        for blk in f["blocks"]:
+            t = blk["term"]
+            if t["k"] != "call":
+                continue
+            c = t.get("callee") or ""
+            if t.get("callee_name") in _SUBSTRING and c.startswith(("core::str::", "alloc::str::", "alloc::string::")):
+                return "%s (%s, line %d)" % (t["callee_name"], b.split("::")[-1], t["sp"]["line"])
+            k2 = t.get("resolved_key") or (t.get("callee_key") if not t.get("callee_trait") else None)
+            if depth < 2 and k2 in fx.fns and fx.fns[k2]["crate"] == f["crate"] and "{closure" not in k2 and \
+                    (fx.fns[k2].get("impl_trait") or "") != "scc_printer::types::Print" and t.get("callee_name") not in ("print_to_string", "print"):
+                r = _inexact_predicate(fx, k2, depth + 1, seen)
+                if r:
+                    return r
+    return None
+
+
 def _collection(fn, t):
     """`Type.field` of the hash collection a site iterates, when it is a field of a parameter"""
     if not t["args"]:
@@ -352,6 +381,12 @@ def rule_hash(ctx, fx=None, table=None):
         first_match = [v for v in bad if re.match(r"Iterator::(find|find_map|position|any|all)\b", v[1])]
         if bad and len(first_match) == len(bad) and row and row["class"] == "UNIQUE_MATCH" and coll and row.get("collection") == coll:
             acc = _accumulates(fn)
+            inexact = _inexact_predicate(fx, fn.key)
+            if inexact:
+                res.inst(ikey, file, line, "violation")
+                res.violate(ikey, "the audited unique-match search decides with a prefix/suffix/substring test - %s - instead of comparing names exactly: "
+                            "several entries can match and the first one in hash order wins" % inexact, file, line)
+                continue
             if not acc:
                 res.inst(ikey, file, line, "audited", "%s (search over %s): %s" % (row["class"], coll, row["reason"]))
                 continue
@@ -361,7 +396,12 @@ def rule_hash(ctx, fx=None, table=None):
                         file, line, {"verdicts": verdicts})
         elif loops:
             acc = _accumulates(fn)
-            if row and not acc:
+            inexact = _inexact_predicate(fx, fn.key) if row and row["class"] == "UNIQUE_MATCH" else None
+            if inexact:
+                res.inst(ikey, file, line, "violation")
+                res.violate(ikey, "the audited unique-match loop decides with a prefix/suffix/substring test - %s - instead of comparing names exactly: "
+                            "several entries can match and the first one in hash order wins" % inexact, file, line)
+            elif row and not acc:
                 res.inst(ikey, file, line, "audited", "%s: %s" % (row["class"], row["reason"]))
             elif row and acc:
                 res.inst(ikey, file, line, "violation")
